@@ -56,5 +56,6 @@ Info == LET nb == NB[c] IN
 
 Report == /\ (verdict = "info") => PrintT(Info)
           /\ (verdict \notin {"info", "run"}) =>
-                 PrintT(<<"V", c, i, verdict, IF verdict = "ok" THEN Mult(FN[c], NB[c], seq) ELSE 0>>)
+                 PrintT(<<"V", c, i, verdict, IF verdict = "ok" THEN Mult(FN[c], NB[c], seq) ELSE 0,
+                                                IF verdict = "ok" THEN MultDoc(FN[c], NB[c], seq) ELSE 0>>)
 =============================================================================
